@@ -236,7 +236,7 @@ func run() int {
 		fmt.Printf("%d obligations, load %.1fs gen %.1fs\n", len(obls), loadS, genS)
 		return 0
 	}
-	if len(obls) == 0 || len(obls) < cfg.MinObligations {
+	if len(obls) == 0 || (len(obls) < cfg.MinObligations && *only == "") {
 		return fatal("property %s produced %d obligations (minimum %d): vacuous run", *prop, len(obls), cfg.MinObligations)
 	}
 
